@@ -373,6 +373,73 @@ def run_case(case):
                     rec["confirmed"] = abs(float(c[0]) - st[5]) <= 1e-9 * max(1.0, abs(st[5])) and not _member(float(c[0]), ftypes[str(a.variable)])
                     rec["exact_value"] = str(c[0])
                 violations.append(rec)
+    # ---- source-level oracle: the *source program*, run by the reference interpreter on paths of its own, never leaves
+    # the inferred types of its original variables either (the IR execution above cannot see a normalisation pass that
+    # changes what the program computes before the types are inferred)
+    src_checked = 0
+    orig_typed = sorted(v for v in ftypes if not v.startswith("_"))
+    if orig_typed and given_scripts is None and not case.get("no_source_oracle"):
+        src_rng = _random.Random(case.get("seed", 0) + 4711)
+        src_prog = json.loads(json.dumps(prog))
+
+        def _subst_probs(stmts):
+            # symbolic probabilities of choices are written as the constant's name: the reference needs their value
+            for stt in stmts:
+                if stt[0] == "assign" and stt[2][0] == "choice":
+                    for item in stt[2][1]:
+                        if isinstance(item[1], str) and item[1] in symvals:
+                            item[1] = str(symvals[item[1]])
+                elif stt[0] == "if":
+                    for _, br in stt[1]:
+                        _subst_probs(br)
+                    if stt[2] is not None:
+                        _subst_probs(stt[2])
+
+        _subst_probs(src_prog["init"])
+        _subst_probs(src_prog["body"])
+        for sri in range(min(nruns, 6)):
+            sched = Scheduler(src_rng, policies[sri % len(policies)])
+            st = {k: Fraction(v) for k, v in symvals.items()}
+
+            def drive(g):
+                try:
+                    req = next(g)
+                    while True:
+                        req = g.send(sched.choose(req))
+                except StopIteration as stop:
+                    return stop.value
+
+            def check(it, gf):
+                nonlocal src_checked
+                for v in orig_typed:
+                    if v not in st or (it < 0 and v in uninit):
+                        continue
+                    src_checked += 1
+                    val = float(st[v])
+                    if _member(val, ftypes[v]):
+                        continue
+                    shape = ("source", bool(gf))
+                    shape_counts[shape] = shape_counts.get(shape, 0) + 1
+                    if shape_counts[shape] > 2:
+                        continue
+                    violations.append({"var": v, "value": val, "type": ftypes[v], "phase": "source", "iteration": it, "stmt": -1,
+                                       "assignment": "(source program run by the reference interpreter)", "via_default": False,
+                                       "default_is_other_var": False, "source_guard_false": bool(gf), "downstream_of_f13": False,
+                                       "no_initial_value": v in uninit, "run": sri, "confirmed": True, "kind": "source-value-out-of-type",
+                                       "is_generic_initial_value": any(Fraction(sv) == st[v] for k, sv in symvals.items() if k in uninit),
+                                       "exact_value": str(st[v])})
+            try:
+                refinterp.INDEX_CHOICES[0] = False
+                drive(refinterp.exec_stmts(src_prog["init"], st))
+                check(-1, False)
+                for it in range(iters):
+                    holds = refinterp.eval_cond(src_prog["guard"], st)
+                    if holds:
+                        drive(refinterp.exec_stmts(src_prog["body"], st))
+                    check(it, not holds)
+            except (refinterp.Inconclusive, refinterp.RefRefuses, ZeroDivisionError, OverflowError, KeyError, ValueError):
+                continue
+    out["source_values_checked"] = src_checked
     out["runs"] = nruns
     out["scripts"] = scripts
     out["observed_triples"] = len(observed)
